@@ -1,11 +1,12 @@
 (* Raft/Extract.v — extraction of the raft log-layer model (ExtrOcamlBasic only) *)
 From Coq Require Import ExtrOcamlBasic.
 From Coq Require Import ZArith.
-From ZV Require Import Raft.Model.
+From ZV Require Import Raft.Model Raft.Core.
 Extraction Language OCaml.
 Extraction "model.ml" Z.of_N N.of_nat Nat.add
   ms_new rs_new rs_reopen st_first_index st_last_index st_term st_entries st_snapshot st_append st_apply_snapshot
   st_create_snapshot st_compact new_log l_first_index l_last_index l_term l_match_term l_last_term l_is_up_to_date
   l_find_conflict l_commit_to l_applied_to l_append l_maybe_append l_slice l_entries l_next_ents l_has_next_ents
   l_has_more_next_ents l_maybe_commit l_restore l_stable_to l_stable_snap_to applied_cursor advance_applied
-  quorum commit_index vote_decision limit_size.
+  quorum commit_index vote_decision limit_size
+  step_node advance process_conf_changed entry_size.
